@@ -324,7 +324,11 @@ func (w *World) layoutRecords(k *Kind) [][5]string {
 		if rc.Kind == "packed" || strings.Contains(src, "opq(") {
 			src = "packed"
 		}
-		row := [5]string{norm(rc.Off).String(), norm(rc.W).String(), src, rc.Order, rc.Guard}
+		guard := rc.Guard
+		if rc.Loop != nil && rc.Loop.List != "" {
+			guard = dropEmptinessGuards(guard, rc.Loop.List)
+		}
+		row := [5]string{norm(rc.Off).String(), norm(rc.W).String(), src, rc.Order, guard}
 		key := strings.Join(row[:], "|")
 		if !seen[key] {
 			seen[key] = true
@@ -332,6 +336,50 @@ func (w *World) layoutRecords(k *Kind) [][5]string {
 		}
 	}
 	return out
+}
+
+// dropEmptinessGuards removes, from the guard of a record written once per element of list, the tests
+// that the list is not empty: they hold whenever there is an element to write.
+func dropEmptinessGuards(guard, list string) string {
+	if guard == "" {
+		return guard
+	}
+	nonEmpty := map[string]bool{
+		"0<len(" + list + ")":     true,
+		"!(len(" + list + ")==0)": true,
+		"!(" + list + "==nil)":    true,
+	}
+	var out []string
+	for _, g := range strings.Split(guard, " && ") {
+		if nonEmpty[g] {
+			continue
+		}
+		if strings.HasPrefix(g, "!(") && strings.HasSuffix(g, ")") {
+			inner := g[2 : len(g)-1]
+			parts := splitOr(inner)
+			if len(parts) > 1 {
+				var rest []string
+				for _, d := range parts {
+					if nonEmpty[negCond(d)] {
+						continue
+					}
+					rest = append(rest, d)
+				}
+				if len(rest) != len(parts) {
+					c := "false"
+					for _, d := range rest {
+						c = orCond(c, d)
+					}
+					g = negCond(c)
+					if g == "true" {
+						continue
+					}
+				}
+			}
+		}
+		out = append(out, g)
+	}
+	return strings.Join(out, " && ")
 }
 
 func init() {
